@@ -21,9 +21,18 @@ impl Lc {
 /// identity of the monomial 1 (Mono::one); neutral for the product (Kani obligations 'one-is-neutral' of the mono_* harnesses)
 pub uninterp spec fn mone() -> int;
 #[verifier::external_body] pub proof fn ax_xm_one(x: int) ensures xm(x, mone()) == x, xm(mone(), x) == x {}
+/// the graded-lex order on monomials, as a total order on their identities (the order axioms are proved for Var / Var2 / Var3 and
+/// MultiDeg in the Kani mono_* harnesses and the units mono_order / mdeg; ASSUMED here for the abstract generator)
+pub uninterp spec fn gle(a: int, b: int) -> bool;
+#[verifier::external_body] pub proof fn ax_gle(a: int, b: int, c: int) ensures gle(a, a), gle(a, b) || gle(b, a), (gle(a, b) && gle(b, a)) ==> a == b, (gle(a, b) && gle(b, c)) ==> gle(a, c) {}
+pub uninterp spec fn mdeg(k: int) -> int;
+pub struct GDeg { pub d: Ghost<int> }
+#[verifier::external_body] pub fn gcmp_(a: &GenK, b: &GenK) -> (r: core::cmp::Ordering)
+    ensures r == core::cmp::Ordering::Less <==> (gle(a.k@, b.k@) && a.k@ != b.k@), r == core::cmp::Ordering::Equal <==> a.k@ == b.k@, r == core::cmp::Ordering::Greater <==> (gle(b.k@, a.k@) && a.k@ != b.k@) { unimplemented!() }
 /// unit monomials (Mono::is_unit / inv): y is the inverse of x iff x y = 1; proved for Var / Var2 / Var3 by the Kani mono_* harnesses? NO — ASSUMED here
 pub uninterp spec fn munit(x: int) -> bool;
 impl GenK {
+    #[verifier::external_body] pub fn deg(&self) -> (r: GDeg) ensures r.d@ == mdeg(self.k@) { unimplemented!() }
     #[verifier::external_body] pub fn is_unit(&self) -> (r: bool) ensures r == munit(self.k@) { unimplemented!() }
     #[verifier::external_body] pub fn inv(&self) -> (r: Option<GenK>) ensures r.is_some() == munit(self.k@), r.is_some() ==> xm(self.k@, r.unwrap().k@) == mone() { unimplemented!() }
     #[verifier::external_body] pub fn one() -> (r: GenK) ensures r.k@ == mone() { unimplemented!() }
@@ -160,6 +169,50 @@ impl PolyBase {
     //@expect pub fn nterms(&self) -> usize;
     pub fn coeff(&self, x: &GenK) -> (r: &ER) requires self.data.wf() ensures r.v() == self.at(x.k@) { self.data.coeff(x) }
     pub fn nterms(&self) -> (r: usize) ensures self.data.data.m@.dom().finite(), r == self.data.data.m@.dom().len(), r == self.data.data.ord@.len() { self.data.nterms() }
+
+    /// the cached pair returned for the zero polynomial is (1, 0)
+    pub open spec fn zwf(&self) -> bool { self.zero.0.k@ == mone() && self.zero.1.v() == r0() }
+    /// the leading term: the stored term with the largest monomial ((1, 0) for the zero polynomial)
+    pub fn lead_term(&self) -> (r: (&GenK, &ER)) requires self.zwf()
+        ensures self.data.data.ord@.len() == 0 ==> (r.0.k@ == mone() && r.1.v() == r0()),
+            self.data.data.ord@.len() > 0 ==> (self.data.data.m@.dom().contains(r.0.k@) && r.1.v() == self.at(r.0.k@)
+                && forall|k: int| self.data.data.m@.dom().contains(k) ==> gle(k, r.0.k@)),
+    //@body impl/PolyBase/lead_term for_iter=1 loops=1 subst=MonoOrd::cmp_grlex:gcmp_
+    //@+ loop 0 header
+    //@| self.iter().max_by(|t1, t2|
+    //@+ loop 0 elem
+    //@| (&GenK, &ER)
+    //@+ loop 0
+    //@| invariant __it0.es@ == self.data.data.ord@, entries_of(__it0.es@, self.data.data.m@), 0 <= __it0.pos@ <= __it0.es@.len(),
+    //@|     __best0.is_none() <==> __it0.pos@ == 0,
+    //@|     __best0.is_some() ==> ((exists|j: int| 0 <= j < __it0.pos@ && #[trigger] __it0.es@[j] == (__best0.unwrap().0.k@, __best0.unwrap().1.v()))
+    //@|         && forall|j: int| 0 <= j < __it0.pos@ ==> gle((#[trigger] __it0.es@[j]).0, __best0.unwrap().0.k@)),
+    //@| ensures __it0.pos@ == __it0.es@.len(),
+    //@| decreases __it0.es@.len() - __it0.pos@,
+    //@+ loop 0 begin-raw
+    //@| let ghost b0 = __best0;
+    //@+ loop 0 end
+    //@| let p = __it0.pos@ - 1; let xk = __it0.es@[p].0;
+    //@| ax_gle(xk, xk, xk);
+    //@| if b0.is_some() {
+    //@|     let bk = b0.unwrap().0.k@; ax_gle(bk, xk, xk); ax_gle(xk, bk, bk);
+    //@|     assert forall|j: int| 0 <= j < __it0.pos@ implies gle((#[trigger] __it0.es@[j]).0, __best0.unwrap().0.k@) by { if j < p { ax_gle(__it0.es@[j].0, bk, xk); } }
+    //@| }
+    //@+ loop 0 after
+    //@| if __best0.is_some() {
+    //@|     let j = choose|j: int| 0 <= j < __it0.pos@ && #[trigger] __it0.es@[j] == (__best0.unwrap().0.k@, __best0.unwrap().1.v());
+    //@|     assert forall|k: int| self.data.data.m@.dom().contains(k) implies gle(k, __best0.unwrap().0.k@) by { let i = choose|i: int| 0 <= i < __it0.es@.len() && #[trigger] __it0.es@[i].0 == k; }
+    //@| }
+    pub fn lead_coeff(&self) -> (r: &ER) requires self.zwf()
+        ensures self.data.data.ord@.len() == 0 ==> r.v() == r0(),
+            self.data.data.ord@.len() > 0 ==> exists|x: int| self.data.data.m@.dom().contains(x) && r.v() == self.at(x) && forall|k: int| self.data.data.m@.dom().contains(k) ==> gle(k, x),
+    //@body impl/PolyBase/lead_coeff
+    pub fn lead_deg(&self) -> (r: GDeg) requires self.zwf()
+        ensures self.data.data.ord@.len() == 0 ==> r.d@ == mdeg(mone()),
+            self.data.data.ord@.len() > 0 ==> exists|x: int| self.data.data.m@.dom().contains(x) && r.d@ == mdeg(x) && forall|k: int| self.data.data.m@.dom().contains(k) ==> gle(k, x),
+    //@body impl/PolyBase/lead_deg
+    //@+ sig
+    //@| fn lead_deg(&self) -> X::Deg
 
     // delegate! any_term; From<(X, R)> (= Lc::from_iter([pair])): ASSUMED single-term constructors / accessors
     //@expect pub fn any_term(&self) -> Option<(&X, &R)>;
